@@ -226,7 +226,7 @@ class Run:
         if flt is not None and flt["when"] == "early":
             self._raise(flt, op, path, nid)
         pred = None
-        if self.tick_nodes is not None and tok is not None and not getattr(sim.tls, "token", None) is None:
+        if self.tick_nodes is not None and tok is not None:
             res = self.spec["funcs"][fname]["resource"]
             if res == "async_thread" and (self.tick_nodes == "all" or list(path or ()) in self.tick_nodes):
                 t0 = self.ticks
